@@ -172,12 +172,20 @@ func init() {
 					al = append(al, [2]string{n, "unknown"})
 				}
 			}
+			g.pf("/-- how every MemDisk method uses the lock `l` protecting `blocks` -/\ndef memDiskLocks : List (String × String) :=\n  %s\n\n",
+				leanPairList(lockSummaries(p, "MemDisk", "l", []string{"blocks"})))
+			g.pf("/-- functions that assign the field `blocks` of MemDisk (constructor only: Size may read it lock-free) -/\ndef blocksAssignSites : List String := %s\n\n",
+				leanStrList(assignSites(p, "MemDisk", "blocks")))
 			g.pf("/-- async_disk's exported type names, resolved -/\ndef asyncTypes : List (String × String) :=\n  %s\n\n", leanPairList(al))
 		})
 	}})
 	extraGens = append(extraGens, extraGen{"fs", func() {
 		genPkgFacts("FsFacts.lean", "Fs", map[string]string{
 			"fs": "github.com/goose-lang/goose/machine/filesys",
-		}, nil)
+		}, func(g *genFile, pkgs []*packages.Package) {
+			p := findPkg(pkgs, "github.com/goose-lang/goose/machine/filesys")
+			g.pf("/-- how every MemFs method uses the mutex `m` protecting its maps -/\ndef memFsLocks : List (String × String) :=\n  %s\n\n",
+				leanPairList(lockSummaries(p, "MemFs", "m", []string{"validDirs", "inodes", "dirents", "openFiles", "lastFd"})))
+		})
 	}})
 }
